@@ -18,6 +18,7 @@ Clauses of the property:
 -/
 import OccaProofs.Lemmas.Loop
 import OccaProofs.Lemmas.ExprGroup
+import OccaProofs.Lemmas.ExprGrammar
 
 namespace Occa.Loop.C17
 open Occa Occa.Loop Occa.LoopExpr
@@ -124,36 +125,41 @@ theorem C17_value_expr_value (l : LoopSpec) (env : String → Int) (magic : Stri
     eval env (valueExpr l magic) = valueOf (l.header env) (env magic) :=
   valueExpr_value l env magic
 
-/-- The printer adds no parentheses, so the emitted *text* is read back with the intended grouping only if
-    no operand binds more loosely than its position allows (`Grouped`, OccaProofs/Lemmas/ExprGroup.lean,
-    stated over the precedence table regenerated from operator.cpp = the C++ table, `occa_prec_is_cxx`).
-    For operand expressions of *every* operator class (they only have to be grouped themselves, as
-    everything that came out of the OKL parser is) the text of the launch dimension is the text of a
-    grouped tree whose value is the model's `count`. -/
+/-- The printer adds no parentheses, so what the backend compiler reads is decided by the C expression
+    grammar (`Derives`, OccaProofs/Lemmas/ExprGrammar.lean: the stratified grammar over the precedence
+    table regenerated from operator.cpp, which `occa_prec_is_cxx` shows to be the C++ one).
+    For operand expressions of *every* operator class — they only have to be `Grouped` themselves, as
+    everything the OKL parser produced is — the text emitted for a launch dimension is the rendering of a
+    token sequence that the grammar derives as a tree `r` whose value is the model's `count`. -/
 theorem C17_count_expr_faithful (l : LoopSpec) (hi : Grouped l.init) (hb : Grouped l.bound)
     (hst : ∀ s, l.step = some s → Grouped s) :
-    ∃ r : Expr, Grouped r ∧ print r = print (countExpr l) ∧ ∀ env, eval env r = count (l.header env) :=
-  ⟨countRead l, countRead_grouped l hi hb hst, countRead_print l, countRead_value l⟩
+    ∃ (r : Expr) (ts : List Tok), renderAll ts = print (countExpr l) ∧ Derives 16 ts r ∧
+      ∀ env, eval env r = count (l.header env) := by
+  obtain ⟨ts, h1, h2⟩ := grouped_reads (countRead l) (countRead_grouped l hi hb hst)
+  exact ⟨countRead l, ts, by rw [h1, countRead_print], h2, countRead_value l⟩
 
 example : Grouped (.bin "|" (.var "a") (.tern (.var "c") (.lit 1) (.lit 2))) = False := by decide
 example : Grouped (.tern (.bin "&" (.var "a") (.var "b")) (.lit 1) (.bin "||" (.var "c") (.var "a"))) := by decide
 
-/-- The iterator reconstruction `(init) ± ((s) * (index))` is grouped as built. -/
+/-- The iterator reconstruction `(init) ± ((s) * (index))` is read as built. -/
 theorem C17_value_expr_faithful (l : LoopSpec) (magic : String) (hi : Grouped l.init)
-    (hst : ∀ s, l.step = some s → Grouped s) : Grouped (valueExpr l magic) :=
-  valueExpr_grouped l magic hi hst
+    (hst : ∀ s, l.step = some s → Grouped s) :
+    ∃ ts : List Tok, renderAll ts = print (valueExpr l magic) ∧ Derives 16 ts (valueExpr l magic) :=
+  grouped_reads _ (valueExpr_grouped l magic hi hst)
 
 /-- Before fix F23 (`bound` pasted without parentheses) the text for `for (o = N; o > a + b; --o)` was
-    `N - a + b`: that is the text of the grouped tree `(N - a) + b`, whose value differs from the count
-    (N = 9, a = 2, b = 3: 10 threads for 4 iterations). -/
+    `N - a + b`: the grammar derives it as `(N - a) + b`, whose value differs from the count
+    (N = 9, a = 2, b = 3: 10 work-groups for 4 iterations). -/
 theorem C17_count_expr_old_misread :
     let l : LoopSpec := { var := "o", attr := .outer, index := none, ityp := "int", init := .var "N", cmp := .gt,
                           boundOnRight := true, bound := .bin "+" (.var "a") (.var "b"), positive := false,
                           post := false, step := none }
     let r : Expr := .bin "+" (.bin "-" (.var "N") (.var "a")) (.var "b")
     let env : String → Int := fun n => if n = "N" then 9 else if n = "a" then 2 else 3
-    Grouped r ∧ print r = print (countExprOld l) ∧ eval env r = 10 ∧ count (l.header env) = 4 := by
-  decide
+    (∃ ts, renderAll ts = print (countExprOld l) ∧ Derives 16 ts r) ∧ eval env r = 10 ∧ count (l.header env) = 4 := by
+  refine ⟨?_, by decide, by decide⟩
+  obtain ⟨ts, h1, h2⟩ := grouped_reads (.bin "+" (.bin "-" (.var "N") (.var "a")) (.var "b")) (by decide)
+  exact ⟨ts, by rw [h1]; decide, h2⟩
 
 /-! ### recorded findings -/
 
